@@ -110,6 +110,19 @@ def _alias_tables(ctx: Ctx, init: Func):
                 out.append((g, pairs, n, registered, []))
     return out
 
+def _scope_of_test(prog, test: ast.AST, *cands):
+    """the function whose body holds this test node (the conditions of an effect that happens inside a helper / a held object belong to the caller)"""
+    for g in cands:
+        if g is None:
+            continue
+        try:
+            if any(n is test for n in g.own_nodes()):
+                return g
+        except Exception:
+            continue
+    return cands[0] if cands else None
+
+
 def _ct_expand(prog, f_scope, test: ast.AST, depth: int = 0) -> ast.AST:
     """`test` with the boolean locals that hold a comparison of the commit type replaced by that comparison (`full = self._commit_type == CommitType.FULL`
     ... `if full:`): the commit-type tests are recognised whether they are written in the `if` or held in a local first"""
@@ -263,8 +276,20 @@ def full_copy_vouched(ctx: Ctx, rule: str, ev: Evaluator, enum, full_name: str) 
                     if len(vals) == 1 and isinstance(vals[0], (ast.BoolOp, ast.UnaryOp, ast.Compare, ast.Name)) or (
                             len(vals) == 1 and isinstance(vals[0], ast.Call) and isinstance(vals[0].func, ast.Name) and vals[0].func.id == "bool"):
                         return form(vals[0], depth + 1)
-                    # phi of constants and voucher reads: `copied = False` on one arm, `copied = bool(rec.get('copied'))` on the other
-                    if all(isinstance(v, ast.Constant) and v.value in (False, None) or is_voucher(v) for v in vals) and any(is_voucher(v) for v in vals):
+                    # phi of constants and voucher reads: `copied = False` on one arm, `copied = bool(rec.get('copied'))` on the other (possibly through a local)
+                    def vouch_val(v: ast.AST, d_: int = 0) -> bool:
+                        if is_voucher(v):
+                            return True
+                        if isinstance(v, ast.Name) and d_ < 3:
+                            try:
+                                ds_ = fl.defs_of_use(v)
+                            except Exception:
+                                return False
+                            vs_ = [x.value for x in ds_ if x.value is not None]
+                            return bool(vs_) and len(vs_) == len(ds_) and all(isinstance(x, ast.Constant) and x.value in (False, None) or vouch_val(x, d_ + 1) for x in vs_) \
+                                and any(vouch_val(x, d_ + 1) for x in vs_)
+                        return False
+                    if all(isinstance(v, ast.Constant) and v.value in (False, None) or vouch_val(v) for v in vals) and any(vouch_val(v) for v in vals):
                         return ("atom", "vouched")
             if is_voucher(e):
                 return ("atom", "vouched")
@@ -375,12 +400,13 @@ def run(ctx: Ctx) -> None:
         for e in effs:
             alive = True
             for (test, pol) in e.conds:
-                if not mentions_ct(prog, e.func, test):
+                sc_ = _scope_of_test(prog, test, e.func, e.root_func)
+                if not mentions_ct(prog, sc_, test):
                     continue
-                t = cond_under(ev, e.func, test, mem)
+                t = cond_under(ev, sc_, test, mem)
                 if t is None:
                     # undecided only when the test is about the commit type alone; mixed with other facts it does not exclude the effect
-                    xt = _ct_expand(prog, e.func, test)
+                    xt = _ct_expand(prog, sc_, test)
                     if not isinstance(xt, (ast.BoolOp, ast.UnaryOp)):
                         undecided = True
                 elif t != pol:
@@ -417,8 +443,9 @@ def run(ctx: Ctx) -> None:
         for e in effs:
             ok = True
             for (test, pol) in e.conds:
-                if mentions_ct(prog, e.func, test):
-                    t = cond_under(ev, e.func, test, mem)
+                sc_ = _scope_of_test(prog, test, e.func, e.root_func)
+                if mentions_ct(prog, sc_, test):
+                    t = cond_under(ev, sc_, test, mem)
                     if t is not None and t != pol:
                         ok = False
             if ok and e.kind in ("PUT", "CP", "WRITE_INPLACE") and any(mentions_attr(e.term, a) for a in data_attrs):
